@@ -5,7 +5,7 @@ from autobean_refactor import models
 CASES = {'quick': 4000, 'thorough': 60000}
 GATES = {
     'quick': {'evaluations': 8000, 'steps_with_visible_change': 6500, 'op_kinds_seen': 60, 'crlf_documents': 300},
-    'thorough': {'evaluations': 500000, 'op_kinds_seen': 70},
+    'thorough': {'evaluations': 200000, 'op_kinds_seen': 70},
 }
 RULE = ('case = one accepted generated document and a history of 1..12 (thorough ..60) *syntax-preserving* catalog operations (the '
         'catalog minus raw_text/spacing/indent overrides, out-of-domain values, comment nodes whose indentation class does not fit the '
